@@ -1171,6 +1171,13 @@ func (e *Exec) compositeLit(v *ast.CompositeLit, c *Ctx, addr bool) Term {
 			for i, f := range fields {
 				h := e.heapArr(c.st, t.Name, f)
 				e.set(c.st, heapKey(t.Name, f.Name), Term{fmt.Sprintf("(store %s %s %s)", h.S, r, vals[i].S), h.T})
+				if f.Type.K == KOpaque {
+					// the zero value of a synchronisation object (wait group count, atomic value): 0
+					opk := "OP!" + t.Name + "!" + f.Name
+					at := &Type{K: KGMap, Key: tInt, Elem: tInt}
+					oa := e.get(c.st, opk, at)
+					e.set(c.st, opk, Term{fmt.Sprintf("(store %s %s 0)", oa.S, r), at})
+				}
 			}
 			return Term{r, &Type{K: KRef, Name: t.Name, St: t.St, Subst: t.Subst, G: ptrTo(t.G)}}
 		}
